@@ -23,7 +23,8 @@ KMAX = {'quick': 4, 'thorough': 6}
 PAIRMAX = {'quick': 3, 'thorough': 4}
 BOUND = {t: 'multisets of <= %d peripherals over %d names x %d centres; all '
             'orderings; all run-length spellings; all ordered pairs of '
-            'identities with <= %d peripherals compared directly' % (
+            'identities with <= %d peripherals compared directly; one peripheral '
+            'repeated 7..30, 99..101, 120 times' % (
                 KMAX[t], len(PERIPH), len(CENTRES), PAIRMAX[t])
          for t in KMAX}
 RULE = ('every (centre, ordering, run-length spelling) over the stated '
@@ -84,6 +85,7 @@ def shards(tier, seed):
         out.append(('pairs', i, 16))
     out.append(('library', None))
     out.append(('malformed', None))
+    out.append(('large', None))
     return out
 
 
@@ -109,6 +111,8 @@ def _check_one(R, G, centre, ms, seq, text, how):
             probs.append('dict lookup misses')
         if not (g == g0.name) or not (g0.name == g):
             probs.append('not interchangeable with canonical name string')
+        if (g != g0.name) or (g0.name != g):
+            probs.append('!= is true against its own canonical name string')
         if {g0.name: 1}.get(g) != 1 or {g: 1}.get(g0.name) != 1:
             probs.append('string/dict interop misses')
         back = G.parse(None, g.name)
@@ -270,6 +274,22 @@ def run_library(R, tier):
                         dict(kind='library-size'))
 
 
+def run_large_counts(R):
+    """One peripheral repeated n times, n up to 120 (multi-digit counts)."""
+    from pgradd.GroupAdd.Group import Group
+    for centre in CENTRES[:2]:
+        for p in ('H', 'C[d]'):
+            for n in list(range(7, 31)) + [99, 100, 101, 120]:
+                ms = tuple([p] * n + ['C'])
+                seq = tuple(['C'] + [p] * n)
+                R.evals += 2
+                R.nontrivial += 2
+                _check_one(R, Group, centre, ms, seq, None, 'ctor')
+                _check_one(R, Group, centre, ms, seq, '%s(C)(%s)%d' % (centre, p, n), 'parse')
+                _check_one(R, Group, centre, ms, seq,
+                           '%s(%s)%d(C)(%s)' % (centre, p, n - 1, p), 'parse')
+
+
 def run_malformed(R):
     """Not judged (statement silent): outcome histogram of one-character
     edits of canonical names."""
@@ -295,6 +315,8 @@ def run_shard(shard, tier):
         run_pairs(R, shard[1], shard[2], tier)
     elif shard[0] == 'library':
         run_library(R, tier)
+    elif shard[0] == 'large':
+        run_large_counts(R)
     else:
         run_malformed(R)
     return R
